@@ -434,6 +434,20 @@ def run_case(cid, rng, workdir):
                 k = rng.randint(1, len(tchunks) - 1)
                 vols = [c for c in chunks if c[0] == "[ volumes ]"]
                 first = [l for c in vols + tchunks[:k] for l in c]
+                if rng.random() < 0.5:
+                    # the first file also holds a template for a residue of the second file, with other coordinates that
+                    # are not centred: the later file counts, recentred like every template
+                    dup = []
+                    for l in rng.choice(tchunks[k:]):
+                        tk = l.split()
+                        if len(tk) == 5 and not l.startswith("["):
+                            try:
+                                l = "%s %s %.3f %.3f %.3f" % (tk[0], tk[1], float(tk[2]) * 0.5 + 0.7, float(tk[3]) * 0.5 - 0.4, float(tk[4]) * 0.5 + 0.2)
+                            except ValueError:
+                                pass
+                        dup.append(l)
+                    first += dup
+                    bump(res, "templates_given_in_both_build_files")
                 second = [l for c in chunks if not any(c is t for t in tchunks[:k]) for l in c]
                 build2 = [os.path.join(workdir, "t1.bld"), os.path.join(workdir, "t2.bld")]
                 for pth, lines_ in zip(build2, (first, second)):
